@@ -167,6 +167,12 @@ fn bodies() -> Vec<Vec<u8>> {
         b"<rpc-reply message-id=\"1\"><ok/></rpc-reply>\n",
         b"]",
         b"<b>]]&gt;]]&gt;</b>",
+        // bodies that end in a proper prefix of the marker: the delimiter follows a partial match
+        b"x]]>]]",
+        b"]]>]",
+        b"<c/>]]>",
+        b"]]",
+        b"y]]>]]]",
     ];
     v.into_iter().map(|b| b.to_vec()).filter(|b| well_framed(b)).collect()
 }
